@@ -7,7 +7,11 @@
 (* directory TMP at the index the context was given (-1: at the end, 0: at *)
 (* the front).  While the module is imported its own code may change       *)
 (* sys.path (ModuleOp: insert at the front, append, drop the first entry,  *)
-(* drop the last pre-existing entry, remove TMP itself).  The import       *)
+(* drop the last pre-existing entry, remove TMP itself, or bind sys.path to *)
+(* a NEW list object with the same entries: `sys.path = list(...)`).  The  *)
+(* context manager must work on whatever list sys.path names at exit, not  *)
+(* on the object it saw at entry (variable rebound; deviation              *)
+(* RememberedList).  The import                                            *)
 (* succeeds or raises.  Exit transcribes __exit__: pop at the remembered   *)
 (* index when TMP is still there, otherwise look TMP up and pop it         *)
 (* (warning), otherwise RuntimeError.                                      *)
@@ -21,13 +25,14 @@ EXTENDS Integers, Sequences, TLC
 CONSTANTS MaxOps, Deviation
 
 Base == <<"e1", "e2", "e3">>
-Ops == {"ins0", "app", "pop0", "rmlast", "rmtmp"}
+Ops == {"ins0", "app", "pop0", "rmlast", "rmtmp", "rebind"}
 
-VARIABLES path, index, pc, ops, raised, ghost, result
-vars == <<path, index, pc, ops, raised, ghost, result>>
+VARIABLES path, index, pc, ops, raised, ghost, result, rebound
+vars == <<path, index, pc, ops, raised, ghost, result, rebound>>
+\* rebound: sys.path names another list object than at entry (same entries at the moment of the rebinding)
 \* ghost: what sys.path would be if only the module's own operations had been applied to Base (TMP never inserted)
 
-Init == path = Base /\ index = 0 /\ pc = "enter" /\ ops = <<>> /\ raised = FALSE /\ ghost = Base /\ result = "none"
+Init == path = Base /\ index = 0 /\ pc = "enter" /\ ops = <<>> /\ raised = FALSE /\ ghost = Base /\ result = "none" /\ rebound = FALSE
 
 InsertAt(s, i, x) == SubSeq(s, 1, i) \o <<x>> \o SubSeq(s, i + 1, Len(s))       \* i = number of entries in front
 RemoveAt(s, i) == SubSeq(s, 1, i - 1) \o SubSeq(s, i + 1, Len(s))                \* 1-based
@@ -38,7 +43,7 @@ Enter ==
   /\ \E given \in {-1, 0} :
        LET idx == IF given < 0 THEN Len(path) + given + 1 ELSE given IN
        /\ index' = idx /\ path' = InsertAt(path, idx, "TMP")
-  /\ pc' = "import" /\ UNCHANGED <<ops, raised, ghost, result>>
+  /\ pc' = "import" /\ UNCHANGED <<ops, raised, ghost, result, rebound>>
 
 Apply(s, op, isGhost) ==
   CASE op = "ins0" -> <<"M1">> \o s
@@ -55,12 +60,13 @@ ModuleOp ==
   /\ \E op \in Ops :
        /\ ~(op = "pop0" /\ Len(path) > 0 /\ path[1] = "TMP")
        /\ path' = Apply(path, op, FALSE) /\ ghost' = Apply(ghost, op, TRUE) /\ ops' = Append(ops, op)
+       /\ rebound' = (rebound \/ op = "rebind")
   /\ UNCHANGED <<index, pc, raised, result>>
 
 ImportEnds ==
   /\ pc = "import"
   /\ \E r \in BOOLEAN : raised' = r
-  /\ pc' = "exit" /\ UNCHANGED <<path, index, ops, ghost, result>>
+  /\ pc' = "exit" /\ UNCHANGED <<path, index, ops, ghost, result, rebound>>
 
 \* __exit__ (0-based self.index = index)
 Exit ==
@@ -71,15 +77,18 @@ Exit ==
          moved == ~tooShort /\ path[index + 1] # "TMP"
          needRecover == (tooShort \/ moved) /\ ~(raised /\ "NoRecoverOnError" \in Deviation)
          real == IndexOf(path, "TMP")
-     IN IF indexError THEN path' = path /\ result' = "IndexError"
+         \* a context that works on the list object remembered at entry changes an orphan: the live list keeps its entries
+         orphan == rebound /\ "RememberedList" \in Deviation
+     IN IF orphan THEN path' = path /\ result' = "ok"
+        ELSE IF indexError THEN path' = path /\ result' = "IndexError"
         ELSE IF needRecover
              THEN IF real = 0 THEN path' = path /\ result' = "RuntimeError"        \* TMP is not there any more
                   ELSE path' = RemoveAt(path, real) /\ result' = "warned"
              ELSE path' = RemoveAt(path, index + 1) /\ result' = "ok"
-  /\ pc' = "done" /\ UNCHANGED <<index, ops, raised, ghost>>
+  /\ pc' = "done" /\ UNCHANGED <<index, ops, raised, ghost, rebound>>
 
 Emit == IF "Emit" \in Deviation THEN PrintT("XDV " \o ToString(<<index, ops, raised, path, ghost, result>>)) ELSE TRUE
-Done == pc = "done" /\ pc' = "emitted" /\ Emit /\ UNCHANGED <<path, index, ops, raised, ghost, result>>
+Done == pc = "done" /\ pc' = "emitted" /\ Emit /\ UNCHANGED <<path, index, ops, raised, ghost, result, rebound>>
 
 Next == Enter \/ ModuleOp \/ ImportEnds \/ Exit \/ Done
 Spec == Init /\ [][Next]_vars
